@@ -2,7 +2,7 @@
     a scripted peer, against the session model on top of the actor model. *)
 From ID Require Export Check.Actor Model.Session.
 
-Record case := mkCase {
+Record dcase := mkCase {
   c_bob : bool;                                   (* which driver is the real one *)
   c_setup : list (aop * ares * deliveries);       (* requests that bring the actor into its state *)
   c_accept : option N;                            (* bob: the accept callback rejects with this reason *)
@@ -31,7 +31,7 @@ Definition oc_eqb (a b : option (N * N)) : bool := option_eqb (fun x y => (fst x
 Definition session_values (l : list (option message)) : N :=
   fold_left (fun a m => a + match m with Some m => value_count m | None => 0 end) l 0.
 
-Definition check (c : case) : N :=
+Definition check_driver (c : dcase) : N :=
   let '(bad, s) := run_actor (ainit empty_tables) (c_setup c) 1 in
   let content s := forallb (fun p => list_eqb entry_eqb (fs_all (fst p) (a_tables s)) (snd p)) in
   let m1 :=
@@ -68,3 +68,24 @@ Definition check (c : case) : N :=
         | _ => true
         end) in
   bit (negb m1) 1 + bit (negb m2) 2.
+
+(** the outermost layer: [connect_and_sync] against [handle_connection] over two real endpoints;
+    what is done to a side beforehand: 0 nothing, 1 sync disabled, 2 replica closed, 3 actor
+    stopped, 4 (acceptor) the accept callback declines *)
+Inductive case :=
+  | Drv (d : dcase)
+  | Net (initiator acceptor : N) (hung acceptor_panicked initiator_ok acceptor_ok : bool)
+        (initiator_recv_sent acceptor_recv_sent : N * N).
+
+Definition check (c : case) : N :=
+  match c with
+  | Drv d => check_driver d
+  | Net fa fb hung bp aok bok ac bc =>
+      let healthy := (fa =? 0) && (fb =? 0) in
+      let m2 :=
+        negb hung && negb bp                                   (* both calls return, nobody panics *)
+        && (negb healthy || (aok && bok))                      (* nothing wrong on either side: both succeed *)
+        && (negb (aok && bok) || healthy)                      (* both succeed only if nothing was wrong *)
+        && (negb (aok && bok) || ((snd ac =? fst bc) && (fst ac =? snd bc))) in   (* counters mirror *)
+      bit (negb m2) 2
+  end.
